@@ -4,7 +4,7 @@
    for; RlCompactProofs.v shows that every operation commutes with it as long as each entry is one the reader returns
    (rl_entry_fits 9 None: the size premise, explicit).  This is the model the correspondence run executes for scripts
    with large payloads; for small ones the glue runs it next to the byte-level model and compares all observations. *)
-From Icv Require Import Base.Tac Replay.RlBytes Replay.RlModel Replay.RlSize.
+From Icv Require Import Base.Tac Replay.RlBytes Replay.RlModel Replay.RlSize Replay.RlFixed.
 Local Open Scope Z_scope.
 
 Record rl_xst := {
@@ -71,34 +71,47 @@ Definition rl_x_rstep (t : rl_topo) (tz fname : Z) (s : rl_xrs) (e : rl_xentry) 
     then {| rl_xr_peer := rl_xe_ts e; rl_xr_logpos := fname; rl_xr_cnt := rl_xr_cnt s + 1; rl_xr_out := RlXPos fname :: out1 |}
     else {| rl_xr_peer := rl_xe_ts e; rl_xr_logpos := rl_xr_logpos s; rl_xr_cnt := rl_xr_cnt s + 1; rl_xr_out := out1 |}.
 
-Definition rl_x_replay_file (t : rl_topo) (tz : Z) (s : rl_xrs) (f : Z * list rl_xentry) : rl_xrs :=
-  fold_left (rl_x_rstep t tz (fst f)) (snd f) s.
+(* [bound]: the form of ReplayLog with the timestamp bound (RlFixed.v) *)
+Fixpoint rl_x_cut (fname : Z) (es : list rl_xentry) : list rl_xentry :=
+  match es with [] => [] | e :: r => if fname <=? rl_xe_ts e then [] else e :: rl_x_cut fname r end.
+
+Definition rl_x_replay_file (bound : bool) (t : rl_topo) (tz : Z) (s : rl_xrs) (f : Z * list rl_xentry) : rl_xrs :=
+  fold_left (rl_x_rstep t tz (fst f)) (if bound then rl_x_cut (fst f) (snd f) else snd f) s.
 
 Definition rl_x_pass_files (now : Z) (st : rl_xst) (peer : Z) : list (Z * list rl_xentry) :=
   filter (fun f => peer <=? fst f) (rl_x_files st) ++ [(now + 1, rl_x_cur st)].
 
-Definition rl_x_replay_pass (t : rl_topo) (tz now : Z) (st : rl_xst) (s : rl_xrs) : rl_xrs :=
-  fold_left (rl_x_replay_file t tz) (rl_x_pass_files now st (rl_xr_peer s))
+Definition rl_x_replay_pass (bound : bool) (t : rl_topo) (tz now : Z) (st : rl_xst) (s : rl_xrs) : rl_xrs :=
+  fold_left (rl_x_replay_file bound t tz) (rl_x_pass_files now st (rl_xr_peer s))
             {| rl_xr_peer := rl_xr_peer s; rl_xr_logpos := rl_xr_logpos s; rl_xr_cnt := 0; rl_xr_out := rl_xr_out s |}.
 
-Fixpoint rl_x_replay_loop (fuel : nat) (t : rl_topo) (tz now : Z) (st : rl_xst) (count : Z) (s : rl_xrs) : rl_xrs * bool :=
+Fixpoint rl_x_replay_loop (bound : bool) (fuel : nat) (t : rl_topo) (tz now : Z) (st : rl_xst) (count : Z) (s : rl_xrs) : rl_xrs * bool :=
   match fuel with
   | O => (s, false)
   | S f =>
       let last := negb ((count =? -1) || (50000 <? count)) in
-      let s' := rl_x_replay_pass t tz now st s in
-      if last then (s', true) else rl_x_replay_loop f t tz now st (rl_xr_cnt s') s'
+      let s' := rl_x_replay_pass bound t tz now st s in
+      if last then (s', true) else rl_x_replay_loop bound f t tz now st (rl_xr_cnt s') s'
   end.
 
 Record rl_xrres := { rl_xrr_out : list rl_xout; rl_xrr_done : bool; rl_xrr_st : rl_xst }.
 
-Definition rl_x_replay (t : rl_topo) (now : Z) (ep : rl_ep) (st : rl_xst) : rl_xrres :=
+Definition rl_x_replay (bound : bool) (t : rl_topo) (now : Z) (ep : rl_ep) (st : rl_xst) : rl_xrres :=
   let st1 := rl_x_set_eps st (rl_upd_ep (rl_ep_set_conn true false) (rl_ep_id ep) (rl_x_eps st)) in
   if rl_ep_dur ep =? 0 then {| rl_xrr_out := []; rl_xrr_done := true; rl_xrr_st := st1 |}
   else
-    let '(s, done) := rl_x_replay_loop 3 t (rl_ep_zone ep) now st (-1)
+    let '(s, done) := rl_x_replay_loop bound 3 t (rl_ep_zone ep) now st (-1)
                         {| rl_xr_peer := rl_ep_pos ep; rl_xr_logpos := rl_ep_pos ep; rl_xr_cnt := 0; rl_xr_out := [] |} in
     {| rl_xrr_out := rev (rl_xr_out s); rl_xrr_done := done; rl_xrr_st := rl_x_open now st1 |}.
+
+(* [emit]: the form with / without the emission of log::SetLogPosition *)
+Definition rl_x_is_msg (x : rl_xout) : bool := match x with RlXMsg _ => true | RlXPos _ => false end.
+Definition rl_x_out_view (emit : bool) (o : list rl_xout) : list rl_xout := if emit then o else filter rl_x_is_msg o.
+Definition rl_x_replay_fe (emit bound : bool) (t : rl_topo) (now : Z) (ep : rl_ep) (st : rl_xst) : rl_xrres :=
+  let r := rl_x_replay bound t now ep st in
+  {| rl_xrr_out := rl_x_out_view emit (rl_xrr_out r); rl_xrr_done := rl_xrr_done r; rl_xrr_st := rl_xrr_st r |}.
+(* the form the source has now *)
+Definition rl_x_replay_src : rl_topo -> Z -> rl_ep -> rl_xst -> rl_xrres := rl_x_replay_fe rl_src_emit rl_src_bound.
 
 (* what the byte-level replay emits for this output *)
 Definition rl_x_out_bytes (o : list rl_xout) : list rl_out :=
